@@ -993,7 +993,7 @@ def cl_forall_real(ex, args, kw, st):
 
 def cl_isfinite_at(ex, args, kw, st):
     """isfinite_at(arr, i, j): the per-element finiteness predicate of a symbolic input array."""
-    a = args[0]
+    a = ex.unwrap(args[0], st, 'isfinite_at')
     idx = tuple(args[1:])
     pred = snap_finite(a)
     if pred is None:
@@ -1173,7 +1173,9 @@ def arr_method(ex, v, meth, args, kw, st):
         kind = {'bool': 'bool', 'int': 'int', 'float': 'real'}.get(kind, 'real')
         if isinstance(v, SArr):
             if kind == 'real':
-                return SArr(v.shape, lambda idx, f=snap(v): real(f(idx)), 'real')
+                out = SArr(v.shape, lambda idx, f=snap(v): real(f(idx)), 'real')
+                out.finite = snap_finite(v)       # a float copy keeps the non-finite elements
+                return out
             if kind == 'bool':
                 return SArr(v.shape, lambda idx, f=snap(v): to_bool(f(idx)), 'bool')
             if kind == 'int':
